@@ -1200,6 +1200,91 @@ func main() {
 		rep.Consts = append(rep.Consts, "flight_forget_in_loader")
 	}
 
+	// store.go, removeEntry: the entry's value is read (directly or through s.kvBuilder) only where the entry is already out of
+	// its shard map: in the REMOVED case of the switch on the reason, or under `if deleted` after `deleted := shard.delete(entry)`
+	if fd := findFunc(internal, "removeEntry"); fd != nil && fd.Body != nil {
+		owned, sites := true, 0
+		var walk func(n ast.Node, inRemoved bool, afterUnlink bool)
+		walkList := func(list []ast.Stmt, inRemoved bool, afterUnlink bool) {
+			unlinked := false
+			for _, st := range list {
+				if as, ok := st.(*ast.AssignStmt); ok && len(as.Lhs) == 1 && len(as.Rhs) == 1 && exprString(as.Lhs[0]) == "deleted" {
+					if call, ok := as.Rhs[0].(*ast.CallExpr); ok && exprString(call.Fun) == "shard.delete" {
+						unlinked = true
+					}
+				}
+				if ifs, ok := st.(*ast.IfStmt); ok && unlinked && exprString(ifs.Cond) == "deleted" && ifs.Init == nil {
+					walk(ifs.Body, inRemoved, true)
+					if ifs.Else != nil {
+						walk(ifs.Else, inRemoved, afterUnlink)
+					}
+					continue
+				}
+				walk(st, inRemoved, afterUnlink)
+			}
+		}
+		walk = func(n ast.Node, inRemoved bool, afterUnlink bool) {
+			switch x := n.(type) {
+			case nil:
+				return
+			case *ast.BlockStmt:
+				walkList(x.List, inRemoved, afterUnlink)
+			case *ast.SwitchStmt:
+				if x.Init != nil {
+					walk(x.Init, inRemoved, afterUnlink)
+				}
+				onReason := x.Tag != nil && exprString(x.Tag) == "reason"
+				for _, cc := range x.Body.List {
+					c := cc.(*ast.CaseClause)
+					rem := inRemoved
+					if onReason && len(c.List) == 1 && exprString(c.List[0]) == "REMOVED" {
+						rem = true
+					}
+					walkList(c.Body, rem, afterUnlink)
+				}
+			case *ast.IfStmt:
+				if x.Init != nil {
+					walk(x.Init, inRemoved, afterUnlink)
+				}
+				ast.Inspect(x.Cond, func(m ast.Node) bool { return true })
+				walk(x.Body, inRemoved, afterUnlink)
+				if x.Else != nil {
+					walk(x.Else, inRemoved, afterUnlink)
+				}
+			default:
+				ast.Inspect(n, func(m ast.Node) bool {
+					switch y := m.(type) {
+					case *ast.BlockStmt, *ast.SwitchStmt, *ast.IfStmt:
+						if m != n {
+							walk(y, inRemoved, afterUnlink)
+							return false
+						}
+					case *ast.SelectorExpr:
+						if exprString(y) == "entry.value" {
+							sites++
+							if !inRemoved && !afterUnlink {
+								owned = false
+							}
+						}
+					case *ast.CallExpr:
+						if exprString(y.Fun) == "s.kvBuilder" {
+							sites++
+							if !inRemoved && !afterUnlink {
+								owned = false
+							}
+						}
+					}
+					return true
+				})
+			}
+		}
+		walk(fd.Body, false, false)
+		fmt.Fprintf(&cb, "(* store.go, removeEntry: every read of the entry's value (entry.value, s.kvBuilder(entry); %d sites) lies in the REMOVED case or under `if deleted` after shard.delete(entry) *)\nDefinition c_remove_value_owned : bool := %v.\n", sites, owned && sites > 0)
+		rep.Consts = append(rep.Consts, "remove_value_owned")
+	} else {
+		fail("removeEntry not found")
+	}
+
 	// store.go, Store.Close: the loop over the shards comes first, nothing in Close can leave before its end, every shard is closed under its own lock
 	{
 		var fdc *ast.FuncDecl
